@@ -176,7 +176,7 @@ PROPS = {
         'steps': [{'script': 'corr_plan.py', 'timeout': 1500, 'timeout_thorough': 6000},
                   {'script': 'corr_graph.py', 'timeout': 1500, 'timeout_thorough': 6000},
                   {'script': 'oracle_static.py', 'timeout': 1500, 'timeout_thorough': 6000}],
-        'required_theorems': ['C03_mode_table', 'C03_policy_configs_have_a_mode',
+        'required_theorems': ['C03_tensor_without_instruction_is_returned_unchanged', 'C03_mode_table', 'C03_policy_configs_have_a_mode',
                               'C03_unselected_op_untouched', 'C03_nonfloat_operand_never_quantized',
                               'C03_quantize_tensor_effect',
                               'C03_inserted_op_converts_between_neighbour_dtypes',
@@ -255,7 +255,11 @@ PROPS = {
                   {'script': 'corr_plan.py', 'timeout': 1500, 'timeout_thorough': 6000},
                   {'script': 'oracle_c19.py', 'timeout': 1500, 'timeout_thorough': 6000}],
         'required_theorems': ['C19_step_is_local_to_its_subgraph', 'C19_opcode_table_only_grows',
-                              'C19_tensor_info_is_per_subgraph'],
+                              'C19_tensor_info_is_per_subgraph',
+                              'C19_result_depends_on_own_instructions_only',
+                              'C19_subgraph_transformed_as_if_it_stood_alone',
+                              'C19_same_instruction_same_effect',
+                              'C19_other_subgraphs_steps_are_invisible'],
         'rule': GRAPH_RULE + ('; C19 oracle: generated 2-3-subgraph models (constants shared across subgraphs in half of '
                               'them) x shipped or random recipes x real or synthetic statistics; quantize(model) vs '
                               'quantize(extracted single-subgraph model i) for every i, compared structurally up to '
@@ -265,6 +269,7 @@ PROPS = {
         'assumptions': GRAPH_ASSUME + [
             'tensor names are unique model-wide (params_generator rejects the model otherwise; C19_unique_names_needed shows the map is not per-subgraph without it)',
             'constants shared between subgraphs with conflicting uses are rejected (C15/C08 F17-F18); those cases are counted and skipped',
+            'whole performer runs ARE a theorem (simulation, Proofs/AloneProofs.v): subgraph k of transform_graph(m, tis) equals, up to the index an operator code has in the opcode table, subgraph 0 of transform_graph(model consisting of k alone, k\'s instructions); its hypotheses (opcode indices in range, instruction subgraph ids >= 0) are evaluated in Coq on every generated input',
             'locality of plan generation across subgraphs (global result dict keyed by name) is tied by correspondence P on multi-subgraph models and by the oracle, not proved'],
     },
     'C14': {
